@@ -86,6 +86,9 @@ def judge(c):
         return None
     if not a.get("unique"):
         return {"what": "a generated identifier is declared more than once", "observed": r["query"] + r["class_decl"]}
+    for g in (getattr(c, "gxx_exec", None) or []):
+        if g and str(g.get("fault", "")).startswith("does-not-compile"):
+            return {"what": "the generated C++ does not compile against a mock of the data model exactly as the query declares it", "observed": {"errors": g.get("errors"), "body": r["query"]}}
     faults = [e.get("fault", "") for e in a["exec"]]
     if any(f.startswith("stuck:unbound") for f in faults):
         return {"what": "the per-event code reads a name that is not declared / not initialised at that point", "observed": {"fault": [f for f in faults if f.startswith("stuck")][0], "body": r["query"]}}
@@ -108,5 +111,5 @@ def after(ctx, c):
             ctx.count("WellFormed:rejected")
 
 
-_P = CompilerProp(ID, gen, judge, 180, 1500, with_query=True, after=after)
+_P = CompilerProp(ID, gen, judge, 180, 1500, with_query=True, after=after, use_gxx=True)
 run, search, replay = _P.run, _P.search, _P.replay
